@@ -1,0 +1,116 @@
+// Copyright 2023 The Go Authors. All rights reserved.
+// Use of this source code is governed by a BSD-style
+// license that can be found in the LICENSE file.
+
+//go:build verif && (!goexperiment.jsonv2 || !go1.25)
+
+package jsontext
+
+import (
+	"bytes"
+	"io"
+)
+
+// Contracts for encode.go: flushing.
+
+// Assumed contract of io.Writer.Write (the documented interface contract):
+// 0 <= n <= len(p); n < len(p) implies a non-nil error; p is not modified.
+
+//@ extern io.Writer.Write(p []byte) (n int, err error)
+//@ trusted io.Writer: documented interface contract (0 <= n <= len(p), a short write returns an error, p is not modified); the writer does not touch the encoder's state
+//@ ensures 0 <= n && n <= len(p)
+//@ ensures n < len(p) ==> err != nil
+
+//@ extern bytes.(*Buffer).Write(p []byte) (n int, err error)
+//@ trusted bytes.Buffer: Write always accepts all of p and returns a nil error
+//@ ensures n == len(p) && err == nil
+
+//@ extern bytes.(*Buffer).Available() (result int)
+//@ trusted bytes.Buffer
+//@ ensures result >= 0
+
+//@ extern bytes.(*Buffer).Grow(n int)
+//@ trusted bytes.Buffer: changes only the buffer's own spare capacity
+
+//@ extern bytes.(*Buffer).AvailableBuffer() (result []byte)
+//@ trusted bytes.Buffer: returns an empty slice over the buffer's own spare capacity
+//@ ensures len(result) == 0 && freshArray(result)
+
+// avoidFlushSpec: a flush must be avoided while the innermost container could
+// still turn out to be empty or its last member could still be retracted:
+// nothing written in it yet, a member value pending, or (at a name position)
+// the buffer ends in the last two bytes of an empty value.
+//
+//@ spec avoidFlushSpec
+func avoidFlushSpec(last stateEntry, buf []byte) bool {
+	if seCount(last) == 0 {
+		return true
+	}
+	if seObj(last) && seCount(last)%2 == 1 {
+		return true
+	}
+	if seObj(last) && seCount(last)%2 == 0 && len(buf) >= 2 {
+		a, b := buf[len(buf)-2], buf[len(buf)-1]
+		return (a == 'l' && b == 'l') || (a == '"' && b == '"') || (a == '{' && b == '}') || (a == '[' && b == ']')
+	}
+	return false
+}
+
+//@ func (*encoderState).avoidFlush
+//@ property C07 C20
+//@ requires e != nil
+//@ ensures result == avoidFlushSpec(e.Tokens.Last, e.Buf)
+
+//@ func (*encoderState).NeedFlush
+//@ property C07 C20
+//@ requires e != nil
+//@ ensures result == (e.wr != nil && (len(e.Tokens.Stack) == 0 || len(e.Buf) > 3*cap(e.Buf)/4))
+
+//@ func (*encodeBuffer).offsetAt
+//@ property C07 C16 C20
+//@ requires e != nil && 0 <= e.baseOffset && e.baseOffset < 1<<61 && 0 <= pos && pos < 1<<61
+//@ ensures result == e.baseOffset+int64(pos)
+
+//@ func (*encodeBuffer).previousOffsetEnd
+//@ property C07 C16 C20
+//@ requires e != nil && 0 <= e.baseOffset && e.baseOffset < 1<<61
+//@ ensures result == e.baseOffset+int64(len(e.Buf))
+
+// nsQuoted: every remote name offset points at the opening quote of the name
+// (so copyQuotedBuffer has no invalidated byte to restore in this buffer).
+//
+//@ spec nsQuoted
+func nsQuoted(offsets []int, b []byte) bool {
+	return vForall(0, len(offsets), func(i int) bool {
+		return offsets[i] >= 0 || offsets[i] == invalidOffset || (0 <= ^offsets[i] && ^offsets[i] < len(b) && b[^offsets[i]] == '"')
+	})
+}
+
+//@ spec isBytesBufferW
+func isBytesBufferW(w io.Writer) bool {
+	_, ok := w.(*bytes.Buffer)
+	return ok
+}
+
+// Flush conserves the output: with W the bytes accepted by the writer during
+// the call (a prefix of the buffer, by the io.Writer contract, n of them),
+//     W ++ Buf' == old(Buf) ++ nl
+// on every path — success, short write, failed write — where nl is "\n" when a
+// top-level value was just completed and OmitTopLevelNewline is unset. The
+// offset advances by exactly n, and the name stack holds no reference into the
+// buffer afterwards.
+//
+//@ func (*encoderState).Flush
+//@ split
+//@ property C07 C16 C20
+//@ requires e != nil && 0 <= e.baseOffset && e.baseOffset+int64(len(e.Buf)) < 1<<61-1
+//@ requires nsLocalOK(e.Names.offsets, e.Names.unquotedNames) && nsRemoteOK(e.Names.offsets, len(e.Buf)) && distinctArrays(e.Names.unquotedNames, e.Buf) && nsQuoted(e.Names.offsets, e.Buf)
+//@ modifies e.Buf, e.Buf[:cap(e.Buf)], e.baseOffset, e.Names.unquotedNames, e.Names.unquotedNames[:cap(e.Names.unquotedNames)], e.Names.offsets[:]
+//@ ensures skipped: old(e.wr == nil || avoidFlushSpec(e.Tokens.Last, e.Buf)) ==> result == nil && sameSlice(e.Buf, old(e.Buf)) && unchanged(e.Buf) && e.baseOffset == old(e.baseOffset)
+//@ ensures count: e.baseOffset+int64(len(e.Buf)) == old(e.baseOffset)+int64(old(len(e.Buf)))+int64(ite(old(e.wr != nil && !avoidFlushSpec(e.Tokens.Last, e.Buf) && len(e.Tokens.Stack) == 0 && !e.Flags.Get(jsonflags.OmitTopLevelNewline)), 1, 0))
+//@ ensures forward: e.baseOffset >= old(e.baseOffset)
+//@ ensures kept: !isBytesBufferW(e.wr) ==> vForall(0, len(e.Buf), func(k int) bool { return vForall(0, old(len(e.Buf)), func(j int) bool { return j == k+int(e.baseOffset-old(e.baseOffset)) ==> e.Buf[k] == old(e.Buf[j]) }) })
+//@ ensures kept-nl: !isBytesBufferW(e.wr) && len(e.Buf) > 0 && len(e.Buf)+int(e.baseOffset-old(e.baseOffset)) == old(len(e.Buf))+1 ==> e.Buf[len(e.Buf)-1] == '\n'
+//@ ensures done: result == nil && !old(e.wr == nil || avoidFlushSpec(e.Tokens.Last, e.Buf)) ==> len(e.Buf) == 0
+//@ ensures names-local: nsLocalOK(e.Names.offsets, e.Names.unquotedNames) && len(e.Names.offsets) == old(len(e.Names.offsets))
+//@ ensures names-copied: !old(e.wr == nil || avoidFlushSpec(e.Tokens.Last, e.Buf)) ==> vForall(0, len(e.Names.offsets), func(i int) bool { return e.Names.offsets[i] >= 0 })
